@@ -672,7 +672,14 @@ func c08Stats(cases []string) map[string]int {
 		if i := strings.IndexByte(t, '{'); i >= 0 {
 			rest := t[i+1:]
 			if j := strings.IndexAny(rest, " }"); j > 0 {
-				st["fn."+rest[:j]]++
+				name := rest[:j]
+				for k := 0; k < len(name); k++ {
+					if name[k] < 0x21 || name[k] > 0x7e { // keep the stats file printable ASCII
+						name = "(other)"
+						break
+					}
+				}
+				st["fn."+name]++
 			}
 		}
 		if f[1] == "1" {
